@@ -95,15 +95,26 @@ func ruleQ2(c *Ctx, id string) {
 	type pred struct{ hi, lo string }
 	extract := func(fn *ssa.Function) pred {
 		var p pred
-		for _, br := range branches(fn) {
-			if br.Cond.X == nil || br.Cond.Y == nil {
-				continue
-			}
-			if _, fl, _, _ := loadedField(br.Cond.Y); fl == "sz" {
-				p.hi = br.Cond.Op.String()
-			}
-			if k, isk := constIntDeep(br.Cond.Y); isk && k == constOfPkg(P, jrnlPath+"/common", "LOGSIZE") {
-				p.lo = br.Cond.Op.String()
+		// the predicate may live in a private helper shared by both siblings
+		for _, sc := range scopesOf(fn) {
+			for _, b := range sc.Fn.Blocks {
+				for _, in := range b.Instrs {
+					bo, ok := in.(*ssa.BinOp)
+					if !ok {
+						continue
+					}
+					switch bo.Op {
+					case token.LSS, token.LEQ, token.GTR, token.GEQ, token.EQL, token.NEQ:
+					default:
+						continue
+					}
+					if _, fl, _, _ := loadedField(bo.Y); fl == "sz" {
+						p.hi = bo.Op.String()
+					}
+					if k, isk := constIntDeep(bo.Y); isk && k == constOfPkg(P, jrnlPath+"/common", "LOGSIZE") {
+						p.lo = bo.Op.String()
+					}
+				}
 			}
 		}
 		return p
